@@ -171,6 +171,10 @@ func (o *Op) addrText(k, role string) string {
 	if err != nil {
 		panic(err)
 	}
+	if o.F[k+"upper"] == "1" {
+		// the all-upper-case spelling of the same address: bech32 accepts it and it decodes to the same bytes
+		s = strings.ToUpper(s)
+	}
 	if o.F[k+"bad"] == "1" {
 		last := s[len(s)-1]
 		repl := byte('q')
